@@ -12,6 +12,7 @@ import (
 	"grol.io/grol/ast"
 	"grol.io/grol/token"
 	"grol.io/grol/trie"
+	"grol.io/grol/verifhook"
 )
 
 const NumRegisters = 8
@@ -187,6 +188,9 @@ func (e *Environment) SaveGlobals(to io.Writer, maxValueLen int) (int, error) {
 					return n, err
 				}
 				n++
+				if err := verifhook.Point("save.binding"); err != nil {
+					return n, err
+				}
 				continue
 			}
 			// Anonymous function are like other variables.
@@ -203,6 +207,9 @@ func (e *Environment) SaveGlobals(to io.Writer, maxValueLen int) (int, error) {
 			return n, err
 		}
 		n++
+		if err := verifhook.Point("save.binding"); err != nil {
+			return n, err
+		}
 	}
 	return n, nil
 }
